@@ -48,14 +48,27 @@ var lib = map[string][2]string{
 	// process-wide (compiled patterns, format strings, split separators)
 	"tw1": {"{{ Title matches '/^t1$/i' ? 'y' : 'n' }}|{{ 'a,b;c'|split(',')|length }}|{{ 1234.5|number_format(1, ',', '.') }}|{{ 'x-y'|replace('-', '+') }}", "{{ Title matches '/^T/' ? 'y' : 'n' }}"},
 	"tw2": {"{{ Title matches '/^t1$/' ? 'y' : 'n' }}|{{ 'a,b;c'|split(';')|length }}|{{ 1234.5|number_format(1, '.', ',') }}|{{ 'x-y'|replace('-', '*') }}", "{{ Title matches '/^t/' ? 'y' : 'n' }}"},
+	// failing renders of every flavour (a failure must leave nothing behind: no half-released context,
+	// no residue in a pooled buffer)
+	"bimp": {"P{% from 'lib' import nosuch %}Q", "P{% import 'bad' as b %}Q"},
+	"bim2": {"P{% import 'bad' as b %}Q{{ b.m(1) }}", "P{% from 'bad' import m %}Q"},
+	"binc": {"P{{ x }}{% include 'bad' %}Q", "P{% include 'nosuch' %}Q"},
+	"bext": {"{% extends 'bad' %}{% block k %}K{% endblock %}", "{% extends 'nosuch' %}"},
+	"bmac": {"P{% import 'lib' as l %}{{ l.m(1/0) }}Q", "{% macro f(p) %}{{ p|nofilter }}{% endmacro %}P{{ f(1) }}"},
+	// a partial with its own layout and a sandboxed include, reached through includes and loops
+	"incx": {"IX[{% include 'child' %}|{% include 'sb' %}]", "IX2[{% for i in xs %}{% include 'child' with {'x': i} %}{% endfor %}{% include 'child' only %}]"},
+	// core names that another engine may redefine; zz* exist only where a configuration registered them
+	"flt":  {"{{ 'abc'|upper }}|{{ max(1, 7, 3) }}|{% if 4 is even %}even{% else %}odd{% endif %}|{{ '<b>'|e }}|{{ 'q'|escape }}", "{{ 'x'|lower }}"},
+	"fltx": {"{{ 'x'|zzcustom }}", "{{ zzfn() }}"},
 }
 
 // deps: what a template needs registered besides itself (the pristine oracle registers only these,
 // so that its result does not depend on what else the process has parsed)
 var deps = map[string][]string{
 	"inc": {"a", "b"}, "child": {"base"}, "use": {"lib"}, "sb": {"a"}, "la": {"a"}, "lb": {"base"},
+	"bimp": {"lib", "bad"}, "bim2": {"bad"}, "binc": {"bad"}, "bext": {"bad"}, "bmac": {"lib"}, "incx": {"child", "sb"},
 }
-var names = []string{"a", "b", "loop", "inc", "base", "child", "lib", "use", "bad", "sb", "j", "um", "ub", "cs1", "cs2", "tw1", "tw2"}
+var names = []string{"a", "b", "loop", "inc", "base", "child", "lib", "use", "bad", "sb", "j", "um", "ub", "cs1", "cs2", "tw1", "tw2", "bimp", "bim2", "binc", "bext", "bmac", "incx", "flt", "fltx"}
 
 // templates served by an ArrayLoader (re-read when the cache is off)
 var loaded = map[string]string{
@@ -93,6 +106,18 @@ func (o op) String() string {
 type engState struct {
 	reg     map[string]int
 	cacheOn bool
+	custom  bool // this engine registered its own filters / functions / tests (addCustom)
+}
+
+// addCustom: configuration of ONE engine — redefines core names and adds new ones. Other engines
+// must not notice.
+func addCustom(e *twig.Engine) {
+	e.AddFilter("upper", func(v interface{}, args ...interface{}) (interface{}, error) { return fmt.Sprintf("<%v>", v), nil })
+	e.AddFilter("e", func(v interface{}, args ...interface{}) (interface{}, error) { return v, nil })
+	e.AddFilter("zzcustom", func(v interface{}, args ...interface{}) (interface{}, error) { return "zz", nil })
+	e.AddFunction("max", func(args ...interface{}) (interface{}, error) { return "other-max", nil })
+	e.AddFunction("zzfn", func(args ...interface{}) (interface{}, error) { return "zzfn", nil })
+	e.AddTest("even", func(v interface{}, args ...interface{}) (bool, error) { return false, nil })
 }
 
 func (s *engState) key() string {
@@ -105,6 +130,9 @@ func (s *engState) key() string {
 	} else {
 		b.WriteString("-")
 	}
+	if s.custom {
+		b.WriteString("c")
+	}
 	return b.String()
 }
 
@@ -116,6 +144,9 @@ func newEngine(s *engState) *twig.Engine {
 		e.RegisterString(n, lib[n][s.reg[n]])
 	}
 	e.SetCache(s.cacheOn)
+	if s.custom {
+		addCustom(e)
+	}
 	return e
 }
 
@@ -138,6 +169,8 @@ func render(e *twig.Engine, n string, c int, to bool) (res string) {
 	}
 	return out
 }
+
+var meantToFail = map[string]bool{"bad": true, "um": true, "ub": true, "bimp": true, "bim2": true, "binc": true, "bext": true, "bmac": true, "fltx": true}
 
 // ---- pristine oracle: a fresh process whose first and only twig activity is the queried render
 
@@ -184,6 +217,7 @@ func pristineMain(key string) {
 		s.reg[n] = int(parts[0][i] - '0')
 	}
 	s.cacheOn = parts[0][len(names)] == '+'
+	s.custom = strings.HasSuffix(parts[0], "c")
 	var c int
 	fmt.Sscan(parts[2], &c)
 	// only the queried template and what it needs: the first twig activity of this process
@@ -208,6 +242,9 @@ func pristineMain(key string) {
 		}
 	}
 	e.SetCache(s.cacheOn)
+	if s.custom {
+		addCustom(e)
+	}
 	fmt.Print(render(e, parts[1], c, false))
 }
 
@@ -330,6 +367,19 @@ func runHistory(seq []op, prefix []int, alts int, sweepCtxs int) execResult {
 			e.ParseTemplate("{% for i in %}")
 		case "renderfail":
 			render(e, "bad", 0, false)
+			x.End() // the further failure flavours run with default pool answers (cost)
+			render(e, "binc", 0, false)
+			render(e, "bext", 0, false)
+			x.Begin()
+		case "renderfail2":
+			render(e, "bimp", 0, false)
+			x.End()
+			render(e, "bim2", 0, false)
+			render(e, "bmac", 0, false)
+			x.Begin()
+		case "addcustom":
+			addCustom(e)
+			s.custom = true
 		case "drop":
 			vsync.DropAll()
 		case "cacheoff":
@@ -395,7 +445,8 @@ func alphabet(thorough bool) []op {
 		a = append(a, op{Kind: "render", Name: n})
 	}
 	a = append(a, op{Kind: "render", Name: "a", Ctx: 1}, op{Kind: "render", Name: "la"}, op{Kind: "renderto", Name: "lb", Ctx: 2})
-	a = append(a, op{Kind: "renderkept"}, op{Kind: "render", Name: "cs2"}, op{Kind: "register", Name: "cs1", V: 1}, op{Kind: "render", Name: "tw1"}, op{Kind: "render", Eng: 1, Name: "tw2"})
+	a = append(a, op{Kind: "renderkept"}, op{Kind: "render", Name: "cs2"}, op{Kind: "register", Name: "cs1", V: 1}, op{Kind: "render", Eng: 1, Name: "tw2"})
+	a = append(a, op{Kind: "renderfail2"}, op{Kind: "render", Name: "incx"}, op{Kind: "addcustom", Eng: 1})
 	a = append(a, op{Kind: "render", Eng: 1, Name: "child"})
 	for _, n := range []string{"a", "base", "lib"} {
 		a = append(a, op{Kind: "register", Name: n, V: 1})
@@ -458,7 +509,7 @@ func run(t *vlib.T) {
 		out := &vlib.Outcome{Nontrivial: true, Class: "selfcheck", Counters: map[string]int64{}}
 		def := &engState{reg: map[string]int{}, cacheOn: true}
 		for _, n := range names {
-			if n != "bad" && n != "um" && n != "ub" && expect(def, n, 0) == "ERR" { // bad, um, ub are meant to fail
+			if !meantToFail[n] && expect(def, n, 0) == "ERR" {
 				out.Counters["library_templates_erroring_in_a_pristine_process"]++
 			}
 		}
@@ -552,6 +603,8 @@ func explore(seq []op, b bound, sweepCtxs int, progress func()) *vlib.Outcome {
 			st[o.Eng].cacheOn = false
 		case "cacheon":
 			st[o.Eng].cacheOn = true
+		case "addcustom":
+			st[o.Eng].custom = true
 		}
 	}
 	out.Class = st[0].key() + "/" + st[1].key()
